@@ -261,3 +261,23 @@ func StructOf(fields []FieldSpec) reflect.Type {
 	}
 	return reflect.StructOf(sf)
 }
+
+// Variant declares that the harness has n variants (thorough tier) and returns
+// the one being explored; natively it is replayed like a Choice.
+func Variant(n int) int {
+	if cur == nil {
+		panic("vrt: nondet outside a replay")
+	}
+	if cur.pos >= len(cur.entries) {
+		cur.pos++
+		return 0
+	}
+	e := cur.entries[cur.pos]
+	cur.pos++
+	if e.Kind != "variant" {
+		if cur.res.Mismatch == "" {
+			cur.res.Mismatch = fmt.Sprintf("replay entry %d is %s/%s, harness asked for the variant", cur.pos-1, e.Name, e.Kind)
+		}
+	}
+	return int(e.Val)
+}
